@@ -12,7 +12,7 @@ def race(make, code_name, park_at):
     """run make() in two threads; A parks the park_at-th time a line of function `code_name` is traced"""
     results, state = {}, {"count": 0, "parked": threading.Event(), "resume": threading.Event(), "done": False}
     def tracer(frame, event, arg):
-        if frame.f_code.co_name not in code_name or "measured" not in frame.f_code.co_filename:
+        if frame.f_code not in code_name:
             return tracer if event == "call" else None
         def local(frame, event, arg):
             if event == "line" and not state["done"]:
@@ -43,22 +43,22 @@ def c20_check(kind, n, park_at, ns):
         exps = tuple([0, n, -n, 7] + [0] * (len(measured.Number.exponents) - 4))
         make = lambda: measured.Dimension(exps)
         table, count = measured.Dimension._known, lambda: sum(1 for d in measured.Dimension._known.values() if d.exponents == exps)
-        name = ("__new__", "__init__")
+        name = (measured.Dimension.__new__.__code__, measured.Dimension.__init__.__code__)
     elif kind == "prefix":
         make = lambda: measured.Prefix(7, n)
         count = lambda: sum(1 for p in measured.Prefix._known.values() if p._initialized and (p.base, p.exponent) == (7, n))
-        name = ("__new__", "__init__")
+        name = (measured.Prefix.__new__.__code__, measured.Prefix.__init__.__code__)
     elif kind == "unit":
         u, v = ns["Meter"], ns["Second"]
         make = lambda: measured.Unit(measured.IdentityPrefix, {u: n, v: -n}, u.dimension ** n / v.dimension ** n)
         count = lambda: sum(1 for x in measured.Unit._known.values() if dict(x.factors) == {u: n, v: -n} and x.prefix is measured.IdentityPrefix)
-        name = ("__new__", "__init__")
+        name = (measured.Unit.__new__.__code__, measured.Unit.__init__.__code__)
     else:
         u, v = ns["Meter"], ns["Second"]
         a_, b_ = u ** n, v ** (n + 1)
         make = lambda: a_ * b_
         count = lambda: sum(1 for x in measured.Unit._known.values() if dict(x.factors) == {u: n, v: n + 1} and x.prefix is measured.IdentityPrefix)
-        name = ("__new__", "__init__")
+        name = (measured.Unit.__new__.__code__, measured.Unit.__init__.__code__)
     A, B, reached = race(make, name, park_at)
     bad = []
     if not reached:
